@@ -7,8 +7,13 @@ package main
 // compared with what the long-running parent computes for the same entry.
 
 import (
+	"runtime"
+	"time"
+
 	"bytes"
 	"fmt"
+	v2 "github.com/goark/go-cvss/v2/metric"
+	v3 "github.com/goark/go-cvss/v3/metric"
 	"io"
 	"os"
 	"os/exec"
@@ -133,6 +138,29 @@ func freshEntry(args []string) string {
 				}
 			}
 			return b.String()
+		case "goentry": // goentry: Decode as the ENTRY FUNCTION of a goroutine (go d.Decode(s)), for every decoder and several inputs
+			// nothing can recover a panic in such a goroutine: the child dies, the parent sees no result
+			inputs3 := []string{"CVSS:3.1/AV:N/AC:L/PR:N/UI:N/S:U/C:H/I:H/A:H", "CVSS:3.1/AV:N/AC:L/PR:N/UI:N/S:U/C:H/I:H/A:Q", "CVSS:4.0/AV:N", "", "CVSS:3.1/AV:N/AV:N", "CVSS:3.1/ZZ:N", "garbage"}
+			inputs2 := []string{"AV:N/AC:L/Au:N/C:N/I:N/A:C", "AV:N/AC:L/Au:N/C:N/I:N/A:Q", "AC:L/AV:N/Au:N/C:N/I:N/A:C", "", "AV:N/AV:N", "ZZ:N", "garbage"}
+			for _, in := range inputs3 {
+				go v3.NewBase().Decode(in)
+				go v3.NewTemporal().Decode(in)
+				go v3.NewEnvironmental().Decode(in)
+				go (*v3.Base)(nil).Decode(in)
+				go (*v3.Environmental)(nil).Decode(in)
+			}
+			for _, in := range inputs2 {
+				go v2.NewBase().Decode(in)
+				go v2.NewTemporal().Decode(in)
+				go v2.NewEnvironmental().Decode(in)
+				go (*v2.Base)(nil).Decode(in)
+				go (*v2.Environmental)(nil).Decode(in)
+			}
+			for i := 0; i < 200; i++ {
+				runtime.Gosched()
+				time.Sleep(time.Millisecond)
+			}
+			return "all goroutines returned"
 		case "verdicts": // verdicts <ver> <level>: error classes of the decoder on valid and single-defect inputs
 			ver, _ := strconv.Atoi(args[1])
 			level, _ := strconv.Atoi(args[2])
